@@ -184,6 +184,9 @@ pub(super) mod udp {
 
         fn decode(&mut self, src: &mut BytesMut) -> Result<Option<Self::Item>, Self::Error> {
             if !src.is_empty() {
+                if trojan::udp_frame_len(src)?.is_none() {
+                    return Ok(None);
+                }
                 let addr = address::decode(src)?;
                 let len = src.get_u16();
                 src.advance(trojan::CR_LF.len());
